@@ -9,6 +9,7 @@
 package remux
 
 import (
+	"bytes"
 	"github.com/q191201771/lal/pkg/base"
 )
 
@@ -59,6 +60,9 @@ type GopCache struct {
 	VideoSeqHeader                    []byte
 	AacSeqHeader                      []byte
 
+	videoSeqHeaderPayload []byte // 最近一次视频seq header的payload，用于判断内容是否变化
+	aacSeqHeaderPayload   []byte // 最近一次音频seq header的payload
+
 	gopRing              []Gop
 	gopRingFirst         int
 	gopRingLast          int
@@ -105,12 +109,24 @@ func (gc *GopCache) Feed(msg base.RtmpMsg, b []byte) bool {
 		return true
 	case base.RtmpTypeIdAudio:
 		if msg.IsAacSeqHeader() {
+			// 同视频seq header，内容变化时已缓存的GOP（其中的音频帧）不能再配合新的seq header发送
+			if gc.aacSeqHeaderPayload != nil && !bytes.Equal(gc.aacSeqHeaderPayload, msg.Payload) {
+				gc.gopRingFirst = 0
+				gc.gopRingLast = 0
+			}
+			gc.aacSeqHeaderPayload = append(gc.aacSeqHeaderPayload[:0], msg.Payload...)
 			gc.AacSeqHeader = b
 			Log.Debugf("[%s] cache %s aac seq header. size:%d", gc.uniqueKey, gc.t, len(gc.AacSeqHeader))
 			return true
 		}
 	case base.RtmpTypeIdVideo:
 		if msg.IsVideoKeySeqHeader() {
+			// 视频seq header的内容发生变化时，已缓存的GOP属于旧的seq header，不能再发送给新加入的订阅者
+			if gc.videoSeqHeaderPayload != nil && !bytes.Equal(gc.videoSeqHeaderPayload, msg.Payload) {
+				gc.gopRingFirst = 0
+				gc.gopRingLast = 0
+			}
+			gc.videoSeqHeaderPayload = append(gc.videoSeqHeaderPayload[:0], msg.Payload...)
 			gc.VideoSeqHeader = b
 			Log.Debugf("[%s] cache %s video seq header. size:%d", gc.uniqueKey, gc.t, len(gc.VideoSeqHeader))
 			return true
@@ -144,6 +160,8 @@ func (gc *GopCache) Clear() {
 	gc.MetadataEnsureWithoutSetDataFrame = nil
 	gc.VideoSeqHeader = nil
 	gc.AacSeqHeader = nil
+	gc.videoSeqHeaderPayload = nil
+	gc.aacSeqHeaderPayload = nil
 	gc.gopRingLast = 0
 	gc.gopRingFirst = 0
 }
